@@ -77,22 +77,40 @@ def cmd_verify(name, full=True):
 
 
 def cmd_run(name, tier='quick', pid=None):
+    """Run the check against the seeded change.  By default in a scratch worktree of /repo's HEAD (VERIF_REPO), so that
+    other work reading /repo is not disturbed; with SEED_IN_PLACE=1 the patch is applied to /repo itself and undone."""
     d = os.path.join(V, 'seeded', name)
     pid = pid or name[:3]
-    st = sh('git -C /repo status --porcelain').stdout.strip()
-    if st:
-        print('REFUSING: /repo not clean:\n' + st)
-        return 2
-    ap = sh('git -C /repo apply %s/patch.diff' % d)
+    in_place = os.environ.get('SEED_IN_PLACE') == '1'
+    if in_place:
+        st = sh('git -C /repo status --porcelain').stdout.strip()
+        if st:
+            print('REFUSING: /repo not clean:\n' + st)
+            return 2
+        tree = '/repo'
+    else:
+        tree = '/tmp/seedrun_%s_%d' % (name, os.getpid())
+        sh('git -C /repo worktree remove --force %s' % tree)
+        sh('git -C /repo worktree add --detach %s HEAD' % tree)
+    ap = sh('git -C %s apply %s/patch.diff' % (tree, d))
     if ap.returncode != 0:
-        print('patch does not apply to /repo', ap.stdout)
+        print('patch does not apply', ap.stdout)
+        if not in_place:
+            sh('git -C /repo worktree remove --force %s' % tree)
         return 2
     t0 = time.time()
+    evfile = os.path.join(V, 'evidence', pid + '.json')
+    saved = open(evfile).read() if os.path.exists(evfile) else None
     try:
-        r = sh('cd %s && ./check %s --tier %s' % (V, pid, tier))
+        r = sh('cd %s && VERIF_REPO=%s ./check %s --tier %s' % (V, tree, pid, tier))
     finally:
-        sh('git -C /repo checkout -- .')
-        sh('git -C %s checkout -- evidence' % V)
+        if in_place:
+            sh('git -C /repo checkout -- .')
+        else:
+            sh('git -C /repo worktree remove --force %s' % tree)
+            shutil.rmtree(tree, ignore_errors=True)
+        if saved is not None:
+            open(evfile, 'w').write(saved)
     viol = [l for l in r.stdout.splitlines() if l.startswith('VIOLATION')]
     m = load_meta(name)
     m.setdefault('checks', {})['%s/%s' % (pid, tier)] = {
